@@ -1,4 +1,5 @@
 From CubedV Require Import Model.Util Model.Keys Model.Fusion Proofs.FusionProofs.
+From CubedV Require Import Model.BlockwiseKF Proofs.BlockwiseKFProofs.
 Theorem C15_fusion_sound : forall (B : Type) (preds : name -> option (keyfun * bfun B))
   (kf : keyfun) (f : bfun B) (read : key -> B) (k : key),
   preds_wf B preds ->
@@ -8,3 +9,93 @@ Theorem C15_fusion_sound : forall (B : Type) (preds : name -> option (keyfun * b
   /\ fst (fused_kf kf (kd B preds) k) = fst (kf k).
 Proof. exact fusion_sound. Qed.
 Print Assumptions C15_fusion_sound.
+
+(* the fused key function again names the array it was asked for *)
+Theorem C15_fused_kf_names : forall (B : Type) (preds : name -> option (keyfun * bfun B))
+  (kf : keyfun) (p : name),
+  (forall k : key, fst k = p -> fst (kf k) = p) ->
+  forall k : key, fst k = p -> fst (fused_kf kf (kd B preds) k) = p.
+Proof. exact fused_kf_names. Qed.
+Print Assumptions C15_fused_kf_names.
+
+(* legacy (single-predecessor) fusion: sound when the successor reads one plain chunk *)
+Theorem C15_legacy_fuse_sound : forall (B : Type) (kf1 kf2 : keyfun) (f1 f2 : bfun B)
+  (read : key -> B) (k k1 : key) (p : name),
+  snd (kf2 k) = [KLeaf k1] -> fst k1 = p ->
+  exists fa : fargs, legacy_fused_kf kf1 kf2 k = Some fa /\
+    legacy_fused_fun B f1 f2 (map (map_nested read) (snd fa))
+    = run_op B kf2 f2 (fun k' : key => if Nat.eqb (fst k') p then run_op B kf1 f1 read k' else read k') k.
+Proof. exact legacy_fuse_sound. Qed.
+Print Assumptions C15_legacy_fuse_sound.
+
+(* D11: undefined when the successor reads a list or an iterator *)
+Theorem C15_legacy_fuse_refuted : forall kf1 : keyfun,
+  exists (kf2 : keyfun) (k : key), legacy_fused_kf kf1 kf2 k = None.
+Proof. exact legacy_fuse_refuted. Qed.
+Print Assumptions C15_legacy_fuse_refuted.
+
+(* ---- blockwise key function ---------------------------------------------- *)
+
+(* whenever the (repaired) constructor accepts the expression, the key function returns,
+   per argument position, exactly the key the index expression designates *)
+Theorem C15_blockwise_kf_spec : forall out args nbs new_axes f ocoords,
+  wf_args nbs args = true ->
+  (forall i, In i (dummy_indices out args) -> lookup i new_axes = None) ->
+  make_kf out args nbs new_axes true = Ok f ->
+  length ocoords = length out ->
+  f ocoords = Ok (ref_kf out args nbs ocoords).
+Proof. exact blockwise_kf_spec. Qed.
+Print Assumptions C15_blockwise_kf_spec.
+
+(* the pinned variant agrees whenever the first argument carries a contracted index or none does *)
+Theorem C15_blockwise_kf_spec_pinned : forall out args nbs new_axes f ocoords,
+  wf_args nbs args = true ->
+  (forall i, In i (dummy_indices out args) -> lookup i new_axes = None) ->
+  make_kf out args nbs new_axes false = Ok f ->
+  length ocoords = length out ->
+  (match args with a :: _ => concat_axes out args a <> [] | [] => True end
+   \/ forall a, In a args -> concat_axes out args a = []) ->
+  f ocoords = Ok (ref_kf out args nbs ocoords).
+Proof. exact blockwise_kf_spec_pinned. Qed.
+Print Assumptions C15_blockwise_kf_spec_pinned.
+
+(* D15 witness for the pinned variant: map_blocks(f, a_1d, b_2d, drop_axis=0) *)
+Theorem C15_flatten_refuted :
+  exists f, make_kf [1] [(0, [1]); (1, [0; 1])] [(0, [2]); (1, [1; 2])] [] false = Ok f
+            /\ f [0] = Err E_MALFORMED.
+Proof. exact flatten_refuted. Qed.
+Print Assumptions C15_flatten_refuted.
+
+(* the key function reports one key per argument and names the right arrays *)
+Theorem C15_ref_kf_names : forall out args nbs ocoords,
+  map fst (ref_kf out args nbs ocoords) = map fst args.
+Proof. exact ref_kf_names. Qed.
+Print Assumptions C15_ref_kf_names.
+
+(* ---- non-vacuity ----------------------------------------------------------- *)
+
+(* accepted, with a contracted index (1) carried with a single block by both arguments *)
+Example C15_kf_accepts_contracted :
+  wf_args [(0, [3; 1]); (1, [1])] [(0, [0; 1]); (1, [1])] = true /\
+  match make_kf [0] [(0, [0; 1]); (1, [1])] [(0, [3; 1]); (1, [1])] [] true with
+  | Ok f => f [2]
+  | Err e => Err e
+  end = Ok [(0, [2; 0]); (1, [0])].
+Proof. vm_compute; split; reflexivity. Qed.
+
+(* accepted, with a contracted index (1) and a broadcast argument (array 2 has a single
+   block along output index 0 while array 0 has three) *)
+Example C15_kf_accepts_broadcast :
+  wf_args [(0, [3; 1]); (1, [1; 4]); (2, [1; 4])] [(0, [0; 1]); (1, [1; 2]); (2, [0; 2])] = true /\
+  match make_kf [0; 2] [(0, [0; 1]); (1, [1; 2]); (2, [0; 2])]
+                [(0, [3; 1]); (1, [1; 4]); (2, [1; 4])] [] true with
+  | Ok f => f [2; 3]
+  | Err e => Err e
+  end = Ok [(0, [2; 0]); (1, [0; 3]); (2, [0; 3])].
+Proof. vm_compute; split; reflexivity. Qed.
+
+(* rejected at build time: several blocks along a contracted axis *)
+Example C15_kf_rejects_dropped :
+  wf_args [(0, [3; 2]); (1, [2])] [(0, [0; 1]); (1, [1])] = true /\
+  make_kf [0] [(0, [0; 1]); (1, [1])] [(0, [3; 2]); (1, [2])] [] true = Err E_DROPPED.
+Proof. vm_compute; split; reflexivity. Qed.
